@@ -175,8 +175,6 @@ def target_ok(A: Term) -> bool:
 def soundness_mechanism(A: Term, B: Term, u) -> str:
     import enum
 
-    if "*tuple[" in A.text or "*tuple[" in B.text:
-        return "star-spelling-unpacked-tuple"
     if isinstance(u.obj, frozenset) and B.t.kind == "Lit" and A.t.kind in ("FrozenSet", "Coll", "Iter"):
         return "frozenset-literal-elements-unchecked"
     if isinstance(u.obj, enum.Enum) and A.t.kind in ("Iter", "Coll", "Seq") and not isinstance(u.obj, (str, bytes, tuple)):
@@ -316,8 +314,7 @@ def e2e_batch(ctx, batch, checker) -> None:
         diagnosed = any(d.code == "incompatible_assignment" for d in ds)
         if diagnosed == acc:
             ctx.violation(
-                ("e2e-differs|star-spelling-unpacked-tuple" if "*tuple[" in A.text + B.text else
-                 f"e2e-differs|{'api-accepts-checker-rejects' if acc else 'api-rejects-checker-accepts'}|{A.t.kind}<-{B.t.kind}"),
+                f"e2e-differs|{'api-accepts-checker-rejects' if acc else 'api-rejects-checker-accepts'}|{A.t.kind}<-{B.t.kind}",
                 f"`y: {A.text} = b` with b: {B.text} is {'diagnosed' if diagnosed else 'accepted'} by the checker but the API says {'accept' if acc else 'reject'}",
                 {"law": "e2e", "A": A.text, "B": B.text},
             )
